@@ -30,6 +30,7 @@ type LObs struct {
 	Locale  string `json:"locale"`
 	Saved   bool   `json:"saved"`
 	Name    string `json:"name"`
+	Args    string `json:"arguments"`
 	RawText string `json:"rawtext"`
 }
 
@@ -99,7 +100,7 @@ func c18Loc(args []string) error {
 		loc := M{}
 		for _, lang := range []string{"eng", "fra", "spa"} {
 			items := M{}
-			for prop, uuid := range map[string]string{"text": actionUUID(1, 1, 1), "attachments": actionUUID(1, 1, 1), "quick_replies": actionUUID(1, 1, 1), "name": catUUID(1, 1, 1)} {
+			for prop, uuid := range map[string]string{"text": actionUUID(1, 1, 1), "attachments": actionUUID(1, 1, 1), "quick_replies": actionUUID(1, 1, 1), "name": catUUID(1, 1, 1), "arguments": caseUUID(1, 1, 1)} {
 				var val any
 				switch lc.Tr[prop][lang] {
 				case "absent":
@@ -110,6 +111,8 @@ func c18Loc(args []string) error {
 					val = []string{""}
 				case "present":
 					val = []string{plant(prop, lang)}
+				case "longer":
+					val = []string{plant(prop, lang), "extra"}
 				}
 				it, _ := items[uuid].(M)
 				if it == nil {
@@ -122,7 +125,9 @@ func c18Loc(args []string) error {
 				loc[lang] = items
 			}
 		}
-		router := M{"type": "switch", "operand": "x", "cases": []M{}, "result_name": "res", "default_category_uuid": catUUID(1, 1, 1),
+		// the operand holds every candidate argument: the match of has_any_word tells which arguments the router compared with
+		router := M{"type": "switch", "operand": "arguments_native arguments_eng arguments_fra arguments_spa", "result_name": "res", "default_category_uuid": catUUID(1, 1, 1),
+			"cases":      []M{{"uuid": caseUUID(1, 1, 1), "type": "has_any_word", "arguments": []string{plant("arguments", "native")}, "category_uuid": catUUID(1, 1, 1)}},
 			"categories": []M{{"uuid": catUUID(1, 1, 1), "name": "Cat", "exit_uuid": exitUUID(1, 1, 1)}}}
 		node := M{"uuid": nodeUUID(1, 1), "actions": []M{act}, "router": router, "exits": exitsFor(1, 1, 0)}
 		flow := M{"uuid": flowUUID(1), "name": "Flow 1", "spec_version": "13.6.0", "language": lc.Base, "type": "messaging", "nodes": []M{node}, "localization": loc}
@@ -179,6 +184,7 @@ func c18Loc(args []string) error {
 		if r := s.Runs()[0].Results().Get("res"); r != nil {
 			line.Obs.Saved = true
 			line.Obs.Name = decode("name", r.CategoryLocalized)
+			line.Obs.Args = decode("arguments", r.Value)
 		}
 		_ = flows.RunStatusActive
 		lw.write(src, line, func(v string) { line.Src = v })
